@@ -26,14 +26,16 @@ Section Mem.
     | _ => RsErr EFuel
     end.
 
-  (* vfs.ReadDir = OpenFile ; f.ReadDir(-1) ; sort.Slice by name ; Close.  MemFile.ReadDir(-1) returns the
-     entries already sorted (dirNode.dirEntries), the second sort is the identity (C14_readdir). *)
-  Definition mem_read_dir (p : str) : list dent * option ekind :=
+  (* OpenFile(O_RDONLY) ; f.ReadDir(-1) : what the file returns (MemFile.ReadDir(-1) happens to be sorted) *)
+  Definition mem_file_read_dir (p : str) : list dent * option ekind :=
     match read_dir s v p with
     | RInfos l oe => (map dent_of l, oe)
     | RFail e => ([], Some e)
     | _ => ([], Some EFuel)
     end.
+
+  (* vfs.ReadDir: the generic composite sorts whatever the file returned *)
+  Definition mem_read_dir : str -> list dent * option ekind := vfs_read_dir mem_file_read_dir.
 
   Definition mem_dir_names (p : str) : option (list str) :=
     match open_file s v 0 p 0 0 with
